@@ -571,7 +571,7 @@ def norm(t):
     if tag in ("ref", "deref"):
         return norm(t[1])
     if tag == "call":
-        if t[1].endswith("ops::Deref>::deref") and len(t[2]) == 1:
+        if (t[1].endswith("ops::Deref>::deref") or t[1].endswith("ops::DerefMut>::deref_mut")) and len(t[2]) == 1:
             return norm(t[2][0])
         return ("call", t[1], tuple(norm(a) for a in t[2]))
     if tag == "callind":
